@@ -218,13 +218,14 @@ def oracle(c, obs):
             return None if all((semi_of(r) - base) % 12 == (3 * (j + 1)) % 12 for j, r in enumerate(res)) else "diminished substitutes do not cycle by minor thirds"
         # substitute_diminished_for_dominant: the property promises nothing beyond well-formed numerals (checked above);
         # its roots are tied to the model by the correspondence.
-        if name == "substitute_harmonic" and sf in ("", "7") and acc == 0:
+        if name == "substitute_harmonic" and acc == 0:
+            # the substitute AS RETURNED (numeral with whatever suffix it carries) against the original degree's triad
             for k in MAJORS[5:10]:
                 orig = progressions.to_chords([n], k)[0]
                 for r in res:
-                    sub = progressions.to_chords([progressions.parse_string(r)[0]], k)[0]
-                    if len(set(orig) & set(sub)) < 2:
-                        return "harmonic substitute shares fewer than two notes with the original triad"
+                    subs = progressions.to_chords([r], k)
+                    if not subs or len(set(orig) & set(subs[0])) < 2:
+                        return "harmonic substitute %r shares fewer than two notes with the original triad" % r
         return None
     if fn == "prog.substitute":
         if isinstance(obs, Err):
